@@ -71,9 +71,9 @@ def r1_lines(chk):
 def strip_fallible(src):
     s = src
     s = s.replace("TryFrom", "From").replace("TryInto", "Into").replace("try_from", "from").replace("try_into_existing", "into_existing").replace("try_into", "into")
-    s = re.sub(r"type Error = __Err ;\s*", "", s)
-    s = re.sub(r"-> :: core :: result :: Result < \( \) , __Err >", "", s)
-    s = re.sub(r":: core :: result :: Result < (.*?) , __Err >", r"\1", s)
+    s = re.sub(r"type Error = __Err( <__ERRG>)? ;\s*", "", s)
+    s = re.sub(r"-> :: core :: result :: Result < \( \) , __Err( <__ERRG>)? >", "", s)
+    s = re.sub(r":: core :: result :: Result < (.*?) , __Err( <__ERRG>)? >", r"\1", s)
     s = s.replace("Ok ( obj )", "obj")
     s = re.sub(r"Ok \( \( \) \)\s*", "", s)
     s = s.replace("__init_ok", "__init")
